@@ -74,7 +74,7 @@ type Sim struct {
 
 	// Lenient replay (used only while shrinking a schedule): when the trace
 	// does not fit the run any more, the rest of the run uses canonical order.
-	Lenient  bool
+	Lenient    bool
 	lenientOff bool
 
 	TotalSteps uint64
@@ -96,9 +96,9 @@ type Sim struct {
 	Steps        uint64
 	MaxDepthSeen int
 
-	h      hash.Hash
-	Events uint64
-	Text   []string // verbose event text (only when Verbose)
+	h       hash.Hash
+	Events  uint64
+	Text    []string // verbose event text (only when Verbose)
 	Verbose bool
 
 	PermCalls       uint64
@@ -170,8 +170,6 @@ func (s *Sim) CurThreadID() int { return s.cur.ID }
 
 // ResetOp resets the per-operation step budget.
 func (s *Sim) ResetOp() {
-	s.TotalSteps += s.Steps
-	s.Steps = 0
 	if s.cur != nil {
 		s.cur.Steps = 0
 	}
@@ -471,6 +469,7 @@ func Enter(site int32) func() {
 	t := s.cur
 	t.Depth++
 	s.Steps++
+	t.Steps++
 	if t.Depth > s.MaxDepthSeen {
 		s.MaxDepthSeen = t.Depth
 	}
@@ -479,9 +478,9 @@ func Enter(site int32) func() {
 		t.Depth--
 		panic(&Diverged{Kind: "depth", Site: site, Depth: t.Depth + 1, Steps: s.Steps})
 	}
-	if s.Steps > s.MaxSteps {
+	if t.Steps > s.MaxSteps {
 		t.Depth--
-		panic(&Diverged{Kind: "steps", Site: site, Depth: t.Depth + 1, Steps: s.Steps})
+		panic(&Diverged{Kind: "steps", Site: site, Depth: t.Depth + 1, Steps: t.Steps})
 	}
 	if s.thr != nil {
 		s.yield(site, yEnter)
@@ -496,8 +495,9 @@ func Tick(site int32) {
 		return
 	}
 	s.Steps++
-	if s.Steps > s.MaxSteps {
-		panic(&Diverged{Kind: "steps", Site: site, Depth: s.cur.Depth, Steps: s.Steps})
+	s.cur.Steps++
+	if s.cur.Steps > s.MaxSteps {
+		panic(&Diverged{Kind: "steps", Site: site, Depth: s.cur.Depth, Steps: s.cur.Steps})
 	}
 	if s.thr != nil {
 		s.yield(site, yTick)
